@@ -1,6 +1,9 @@
 //! Model of `bytes`: value semantics, inline bounded storage (no heap, no pointer tagging).
 use core::ops::Deref;
-pub const CAP: usize = 8;
+/// default: 8 bytes with contents. Feature `lenonly`: 9000 bytes, lengths are exact but CONTENTS ARE NOT MAINTAINED
+/// (used only for the 1 KiB / 8 KiB mark harnesses, where only lengths matter).
+#[cfg(not(feature = "lenonly"))] pub const CAP: usize = 8;
+#[cfg(feature = "lenonly")] pub const CAP: usize = 9000;
 
 #[derive(Clone, Debug)]
 pub struct BytesMut { buf: [u8; CAP], len: usize, cap: usize }
@@ -19,16 +22,16 @@ impl BytesMut {
     pub fn split_to(&mut self, at: usize) -> BytesMut {
         assert!(at <= self.len, "split_to out of bounds");
         let mut head = BytesMut { buf: [0; CAP], len: at, cap: at };
-        let mut i = 0;
-        while i < CAP { if i < at { head.buf[i] = self.buf[i]; } i += 1; }
+        #[cfg(not(feature = "lenonly"))] { let mut i = 0; while i < CAP { if i < at { head.buf[i] = self.buf[i]; } i += 1; } }
         self.shift(at);
         head
     }
     fn shift(&mut self, at: usize) {
-        let mut i = 0;
-        while i < CAP { self.buf[i] = if i + at < CAP { self.buf[i + at] } else { 0 }; i += 1; }
+        #[cfg(not(feature = "lenonly"))] { let mut i = 0; while i < CAP { self.buf[i] = if i + at < CAP { self.buf[i + at] } else { 0 }; i += 1; } }
         self.len -= at; self.cap -= at;
     }
+    /// model-only: a buffer of `len` unspecified bytes (lenonly configuration)
+    pub fn model_with_len(len: usize, cap: usize) -> Self { bound(len); BytesMut { buf: [0; CAP], len, cap: if cap < len { len } else { cap } } }
     pub fn split(&mut self) -> BytesMut { let n = self.len; self.split_to(n) }
     pub fn truncate(&mut self, len: usize) { if len < self.len { self.len = len; } }
     pub fn clear(&mut self) { self.len = 0; }
@@ -36,8 +39,7 @@ impl BytesMut {
     pub fn extend_from_slice(&mut self, s: &[u8]) {
         bound(self.len + s.len());
         self.reserve(s.len());
-        let mut i = 0;
-        while i < s.len() { self.buf[self.len + i] = s[i]; i += 1; }
+        #[cfg(not(feature = "lenonly"))] { let mut i = 0; while i < s.len() { self.buf[self.len + i] = s[i]; i += 1; } }
         self.len += s.len();
     }
 }
